@@ -245,10 +245,21 @@ def max_fa_period(V):
         st.update(m=m, F=F, f=f)
         return dict(asig=sig)
     for out in V.run('eqsig.im.max_fa_period', setup):
+        out.replay_info = dict(module='fourier', op='max_fa_period')
         if not out.no_raise():
             continue
         m, F, f = st['m'], st['F'], st['f']
         r = out.result
+        # on each path the arg-max position is decided (the library contract of argmax forks on it): name that bin syntactically
+        # and compare it with every other bin in a separate small obligation (|F_k| >= |F_j| -> |F_k|^2 >= |F_j|^2 is nonlinear)
+        ks = [k for k in range(m) if T.seq(r, T.sdiv(1, f[k])) is True]
+        if len(ks) == 1:
+            k = ks[0]
+            out.prove('reports-the-period-of-one-of-the-bins', True)
+            for j in range(m):
+                if j != k:
+                    out.prove('reported-bin-has-amplitude-not-below-bin[%d]' % j, T.sge(_cx_abs2(F[k]), _cx_abs2(F[j])), atomize=True)
+            continue
         goals = []
         for k in range(m):
             largest = T.sand(*[T.sge(_cx_abs2(F[k]), _cx_abs2(F[j])) for j in range(m)])
